@@ -244,6 +244,31 @@ def do(op, a):
             y = Sid(a[0][1]) if a[0][0] == 's' else x
             return [t_sid(x), t_sid(y), t_bool(before == [t_sid(x), x.uri, str(hash(x) == hash(Sid(x.uri)))]), t_bool(x.fields is not x.fields)]
         return with_sid(a[0], lambda x: out(lambda: f(x)))
+    if op == 'sid_multi':
+        # several constructor arguments at once: the first has priority, the others are ignored
+        def f():
+            before = t_sid(Sid(a[0])) if a[0] else None
+            kw = {}
+            if a[0]:
+                kw['sid'] = a[0]
+            if a[1]:
+                kw['query'] = a[1]
+            if a[2]:
+                kw['fields'] = OrderedDict((k, v) for k, v in a[2])
+            x = Sid(**kw)
+            after = t_sid(Sid(a[0])) if a[0] else None
+            return [t_sid(x), t_bool(before == after)]
+        return out(f)
+    if op == 'fields_arg_mutate':
+        def f():
+            d = OrderedDict((k, v) for k, v in a[0])
+            x = Sid(fields=d)
+            before = [t_sid(x), x.uri, x.as_query()]
+            d[a[1]] = a[2]
+            for k in list(d)[:1]:
+                d.pop(k)
+            return [before[0], t_bool(before == [t_sid(x), x.uri, x.as_query()])]
+        return out(f)
     if op == 'eq_hash':
         def f(x, y):
             return [t_bool(x == y), t_bool(hash(x) == hash(y)), t_bool(len({x, y}) == 1), t_bool(x == y.string), t_bool(len({x: 1, y: 2}) == 1)]
